@@ -2,6 +2,10 @@ package main
 
 import (
 	"fmt"
+	"go/ast"
+	"go/parser"
+	"go/scanner"
+	"go/token"
 	"go/types"
 	"os"
 	"os/exec"
@@ -13,6 +17,7 @@ import (
 
 	"cffvc/vc"
 
+	"golang.org/x/tools/go/packages"
 	"golang.org/x/tools/go/ssa"
 )
 
@@ -45,7 +50,8 @@ func run(dir string, env []string, name string, args ...string) (string, error) 
 // generate copies the repository to scratch, adds the extra corpus, builds cff
 // from that copy and runs it over internal/tests. It returns the directory of
 // the generated module.
-func generate(repo, scratch, corpus string, mode string) (*gen, error) {
+func generate(repo, scratch, corpus string, mode string, extra []string) (*gen, error) {
+	os.MkdirAll(scratch, 0o755)
 	g := &gen{repo: repo, scratch: scratch, work: filepath.Join(scratch, "repo")}
 	if out, err := run("/", nil, "rsync", "-a", "--exclude", ".git", "--exclude", "/out", repo+"/", g.work+"/"); err != nil {
 		return nil, fmt.Errorf("copy repo: %v: %s", err, out)
@@ -87,6 +93,7 @@ func generate(repo, scratch, corpus string, mode string) (*gen, error) {
 	if mode != "" && mode != "base" {
 		args = append(args, "-genmode", mode)
 	}
+	args = append(args, extra...)
 	args = append(args, "./...")
 	out, err := run(tests, nil, cff, args...)
 	g.log = append(g.log, strings.TrimSpace(out))
@@ -326,22 +333,109 @@ func closureStoredInField(al *ssa.Alloc, field int, viaLoad bool) *ssa.Function 
 	return nil
 }
 
+// structural records an obligation decided by inspection of the generated
+// output (no solver involved).
+func structural(sink *vc.Sink, fn, kind, label string, props []string, ok bool, text string) {
+	c := &vc.Clause{Kind: kind, Label: label, Func: fn, Text: text, Props: props}
+	goal := vc.True
+	if !ok {
+		goal = vc.False
+	}
+	sink.Instances = append(sink.Instances, &vc.Instance{Name: "G." + fn + "/" + kind + "/" + label, Clause: c, Goal: goal, Trace: []string{text}})
+}
+
+// directiveNames returns the code-generation directives of package cff: the
+// functions whose body is panic(_noGenMsg).
+func directiveNames(repo string) map[string]bool {
+	out := map[string]bool{}
+	fset := token.NewFileSet()
+	af, err := parser.ParseFile(fset, filepath.Join(repo, "cff.go"), nil, 0)
+	if err != nil {
+		return out
+	}
+	for _, d := range af.Decls {
+		fd, ok := d.(*ast.FuncDecl)
+		if !ok || fd.Body == nil || fd.Recv != nil {
+			continue
+		}
+		ast.Inspect(fd.Body, func(n ast.Node) bool {
+			if ce, ok := n.(*ast.CallExpr); ok {
+				if id, ok := ce.Fun.(*ast.Ident); ok && id.Name == "panic" && len(ce.Args) == 1 {
+					if a, ok := ce.Args[0].(*ast.Ident); ok && a.Name == "_noGenMsg" {
+						out[fd.Name.Name] = true
+					}
+				}
+			}
+			return true
+		})
+	}
+	return out
+}
+
+// outputChecks: the generated packages type-check without the cff tag and no
+// call to a directive remains in generated files.
+func outputChecks(sink *vc.Sink, mode string, lr *vc.LoadResult, bad map[string][]string, directives map[string]bool, modPrefix string) (files int) {
+	var badNames []string
+	for p := range bad {
+		badNames = append(badNames, p)
+	}
+	sort.Strings(badNames)
+	for _, p := range badNames {
+		structural(sink, "output:"+mode, "type-checks", "generated-package-type-checks", []string{"C13"}, false, p+": "+strings.Join(bad[p], "; "))
+	}
+	var visit func(p *packages.Package)
+	seen := map[*packages.Package]bool{}
+	visit = func(p *packages.Package) {
+		if seen[p] || !strings.HasPrefix(p.PkgPath, modPrefix) {
+			return
+		}
+		seen[p] = true
+		structural(sink, "output:"+mode, "type-checks", "generated-package-type-checks", []string{"C13"}, true, p.PkgPath)
+		for i, f := range p.Syntax {
+			name := p.CompiledGoFiles[i]
+			if !strings.HasSuffix(name, "_gen.go") && !strings.HasSuffix(name, "_gen_test.go") {
+				continue
+			}
+			files++
+			left := ""
+			ast.Inspect(f, func(n ast.Node) bool {
+				ce, ok := n.(*ast.CallExpr)
+				if !ok {
+					return true
+				}
+				var id *ast.Ident
+				switch fn := ce.Fun.(type) {
+				case *ast.SelectorExpr:
+					id = fn.Sel
+				case *ast.Ident:
+					id = fn
+				}
+				if id == nil {
+					return true
+				}
+				if obj, ok := p.TypesInfo.Uses[id].(*types.Func); ok && obj.Pkg() != nil && obj.Pkg().Path() == "go.uber.org/cff" && directives[obj.Name()] {
+					left = fmt.Sprintf("%s: call of cff.%s remains", p.Fset.Position(ce.Pos()), obj.Name())
+				}
+				return true
+			})
+			structural(sink, "output:"+mode, "no-directive-left", "no-directive-call-in-output", []string{"C13"}, left == "", filepath.Base(name)+" "+left)
+		}
+		for _, imp := range p.Imports {
+			visit(imp)
+		}
+	}
+	for _, p := range lr.Pkgs {
+		visit(p)
+	}
+	return files
+}
+
 func passG(repo string, cfg *vc.SolverConfig, only, corpus, scratch string) (*vc.PassResult, error) {
 	start := time.Now()
 	res := &vc.PassResult{Pass: "G", Ungenerated: map[string]string{}, Extra: map[string]any{}}
 	if corpus == "" {
 		corpus = "/verif/corpus"
 	}
-	g, err := generate(repo, scratch, corpus, "base")
-	if err != nil {
-		return nil, err
-	}
-	tests := filepath.Join(g.work, "internal", "tests")
-	lr, err := vc.Load(tests, nil, "./...")
-	if err != nil {
-		return nil, fmt.Errorf("generated corpus does not type-check without the cff tag: %v", err)
-	}
-	ws := findWrappers(lr, "go.uber.org/cff/internal/tests")
 	roles, err := contractFile(filepath.Join(repo, "internal", "contracts_templates_verif.go"))
 	if err != nil {
 		return nil, err
@@ -350,8 +444,27 @@ func passG(repo string, cfg *vc.SolverConfig, only, corpus, scratch string) (*vc
 	for _, fs := range roles.Funcs {
 		roleSpecs[strings.TrimPrefix(fs.Name, "role:")] = fs
 	}
-	ctx := vc.NewCtx()
+	directives := directiveNames(repo)
 	sink := vc.NewSink("G")
+	const modPrefix = "go.uber.org/cff/internal/tests"
+
+	g, err := generate(repo, filepath.Join(scratch, "base"), corpus, "base", nil)
+	if err != nil {
+		if g == nil {
+			return nil, err
+		}
+		structural(sink, "generator:base", "accepts", "corpus-accepted", []string{"C13", "C14"}, false, err.Error())
+	} else {
+		structural(sink, "generator:base", "accepts", "corpus-accepted", []string{"C13", "C14"}, true, "cff exited 0 on the corpus")
+	}
+	tests := filepath.Join(g.work, "internal", "tests")
+	lr, bad, err := vc.LoadLenient(tests, nil, "./...")
+	if err != nil {
+		return nil, fmt.Errorf("cannot load the generated corpus: %v", err)
+	}
+	nfiles := outputChecks(sink, "base", lr, bad, directives, modPrefix)
+	ws := findWrappers(lr, modPrefix)
+	ctx := vc.NewCtx()
 	x := vc.NewExec(ctx, lr.Prog, sink)
 	x.RegisterStdModels()
 	x.Goexit = false
@@ -369,12 +482,45 @@ func passG(repo string, cfg *vc.SolverConfig, only, corpus, scratch string) (*vc
 			gp.roleCount[jc.role]++
 			if jc.role == "unrecognised" {
 				res.Ungenerated[w.name+" closure"] = "unrecognised job closure"
+				structural(sink, "role:unrecognised", "shape", "every-enqueued-closure-has-a-role", []string{"C02", "C04", "C10"}, false, w.name)
 				continue
 			}
 			gp.verifyClosure(w, jc)
 		}
 	}
+	structural(sink, "role:unrecognised", "shape", "every-enqueued-closure-has-a-role", []string{"C02", "C04", "C10"}, true, fmt.Sprintf("%d closures classified", nClos))
+
+	// other generation modes: the output type-checks, no directive remains,
+	// source-map output has the same tokens as base output
+	type variant struct {
+		name string
+		mode string
+		args []string
+	}
+	for _, v := range []variant{{"source-map", "source-map", nil}, {"auto-instrument", "base", []string{"-auto-instrument"}}} {
+		gv, err := generate(repo, filepath.Join(scratch, v.name), corpus, v.mode, v.args)
+		if err != nil {
+			if gv == nil {
+				return nil, err
+			}
+			structural(sink, "generator:"+v.name, "accepts", "corpus-accepted", []string{"C13"}, false, err.Error())
+		} else {
+			structural(sink, "generator:"+v.name, "accepts", "corpus-accepted", []string{"C13"}, true, "cff exited 0 on the corpus")
+		}
+		vtests := filepath.Join(gv.work, "internal", "tests")
+		lrv, badv, err := vc.LoadLenient(vtests, nil, "./...")
+		if err != nil {
+			return nil, fmt.Errorf("cannot load the generated corpus (%s): %v", v.name, err)
+		}
+		outputChecks(sink, v.name, lrv, badv, directives, modPrefix)
+		if v.name == "source-map" {
+			compareTokens(sink, tests, vtests)
+		}
+		os.RemoveAll(gv.work)
+	}
+
 	res.Extra["programs"] = len(lr.Pkgs)
+	res.Extra["generated_files"] = nfiles
 	res.Extra["wrappers"] = len(ws)
 	res.Extra["closures"] = nClos
 	res.Extra["role_matrix_seen"] = gp.roleCount
@@ -384,13 +530,69 @@ func passG(repo string, cfg *vc.SolverConfig, only, corpus, scratch string) (*vc
 	}
 	sort.Strings(flags)
 	res.Extra["flag_combinations_seen"] = flags
-	res.Extra["generator_log"] = g.log
 	for name := range roleSpecs {
 		res.Functions = append(res.Functions, "role:"+name)
 	}
 	sort.Strings(res.Functions)
 	vc.Finish(x, cfg, res, start)
 	return res, nil
+}
+
+// compareTokens: for every generated file, the Go token sequence of the
+// source-map output equals that of the base output (comments and line
+// directives are not tokens).
+func compareTokens(sink *vc.Sink, baseDir, smDir string) {
+	filepath.Walk(baseDir, func(p string, info os.FileInfo, err error) error {
+		if err != nil || info.IsDir() || !(strings.HasSuffix(p, "_gen.go") || strings.HasSuffix(p, "_gen_test.go")) {
+			return nil
+		}
+		rel, _ := filepath.Rel(baseDir, p)
+		a, errA := tokensOf(p)
+		b, errB := tokensOf(filepath.Join(smDir, rel))
+		ok := errA == nil && errB == nil && len(a) == len(b)
+		why := rel
+		if ok {
+			for i := range a {
+				if a[i] != b[i] {
+					ok = false
+					why = fmt.Sprintf("%s: token %d differs: %q vs %q", rel, i, a[i], b[i])
+					break
+				}
+			}
+		} else {
+			why = fmt.Sprintf("%s: %d vs %d tokens (%v %v)", rel, len(a), len(b), errA, errB)
+		}
+		structural(sink, "output:source-map", "same-tokens", "source-map-output-has-the-tokens-of-base-output", []string{"C20"}, ok, why)
+		return nil
+	})
+}
+
+func tokensOf(path string) ([]string, error) {
+	src, err := os.ReadFile(path)
+	if err != nil {
+		return nil, err
+	}
+	fset := token.NewFileSet()
+	f := fset.AddFile(path, -1, len(src))
+	var sc scanner.Scanner
+	sc.Init(f, src, nil, 0)
+	var out []string
+	for {
+		_, tok, lit := sc.Scan()
+		if tok == token.EOF {
+			break
+		}
+		if tok == token.SEMICOLON && lit == "\n" {
+			out = append(out, ";")
+			continue
+		}
+		if lit != "" {
+			out = append(out, lit)
+		} else {
+			out = append(out, tok.String())
+		}
+	}
+	return out, nil
 }
 
 var _ = types.Typ
